@@ -30,7 +30,7 @@ sample_view = c01.sample_view
 def n_runs(tier):
     if os.environ.get("VERIF_RUNS"):
         return int(os.environ["VERIF_RUNS"])
-    return 24000 if tier == "quick" else 600000
+    return 18000 if tier == "quick" else 600000
 
 
 def gen(rng, index, tier):
